@@ -447,13 +447,14 @@ def leak_check(case):
     return None
 
 
-def memcheck_shard(cases):
+def memcheck_shard(arg):
     """Run the scenarios of one shard, unpinned, under valgrind memcheck (C
     implementation). Returns dict(rc, fired, last, tail); rc 99 = memcheck
     reported an invalid access/free, negative = the interpreter died."""
     import pickle
     import shutil
     import subprocess
+    cases, limit = arg
     if not shutil.which('valgrind'):
         return dict(rc=None, fired=0, last=-1, tail='valgrind not installed')
     work = os.environ.get('VERIF_WORK', '/verif/.work')
@@ -463,9 +464,26 @@ def memcheck_shard(cases):
         pickle.dump([tuple(c) for c in cases], f)
     env = dict(os.environ, PYTHONMALLOC='malloc', PURE_PYTHON='0', PYTHONHASHSEED='0')
     here = os.path.dirname(os.path.abspath(__file__))
-    r = subprocess.run(['valgrind', '-q', '--error-exitcode=99', '--undef-value-errors=no',
-                        '--num-callers=12', sys.executable, os.path.join(here, 'c11_memcheck.py'), path],
-                       env=env, capture_output=True, text=True)
+    # corrupted memory can also send the interpreter into an endless loop: the
+    # shard gets a generous time limit (a clean shard takes well under a minute)
+    p = subprocess.Popen(['valgrind', '-q', '--error-exitcode=99', '--undef-value-errors=no',
+                          '--num-callers=12', sys.executable, os.path.join(here, 'c11_memcheck.py'), path],
+                         env=env, stdout=subprocess.DEVNULL, stderr=subprocess.PIPE, text=True)
+    timed_out = False
+    try:
+        _, err = p.communicate(timeout=limit)
+    except subprocess.TimeoutExpired:
+        timed_out = True
+        p.kill()
+        _, err = p.communicate()
+
+    class r:
+        returncode = p.returncode
+        stderr = err
+    if timed_out:
+        # an invalid access reported before the hang is a violation; a bare
+        # time-out is only recorded (it could be a slow machine)
+        r.returncode = 99 if '== Invalid' in err else None
     try:
         os.unlink(path)
     except OSError:
@@ -484,6 +502,8 @@ def memcheck_shard(cases):
         if line.startswith('@@DONE'):
             fired = int(line.split()[1])
     tail = ''
+    if timed_out and r.returncode is None:
+        return dict(rc=None, fired=fired, last=last, tail='memcheck shard did not finish within %d s' % limit)
     if r.returncode != 0:
         k = err.find('==', max(0, first_report - 20)) if first_report >= 0 else 0
         tail = err[k:k + 2500]
@@ -721,7 +741,7 @@ def replay(case):
             return dict(error='replay is not deterministic', first=repr(v), second=repr(v2))
         return dict(violation=v) if v else None
     if case['kind'] == 'memcheck':
-        r = memcheck_shard([tuple(c) for c in case['cases']])
+        r = memcheck_shard(([tuple(c) for c in case['cases']], 1800))
         if r['rc'] not in (0, None):
             return dict(violation='memcheck reports an invalid access', rc=r['rc'], report=r['tail'])
         return None
@@ -839,12 +859,13 @@ def run(ctx):
     mc = [c for c in mc if pairs(c)]
     shards = [mc[i::NPROC] for i in range(NPROC)]
     shards = [sh for sh in shards if sh]
-    res = ctx.pool('c', capture_stderr=True).map('c11', 'memcheck_shard', shards)
+    res = ctx.pool('c', capture_stderr=True).map('c11', 'memcheck_shard',
+                                                 [(sh, 300 if quick else 1800) for sh in shards])
     nmem = 0
     for sh, r in zip(shards, res):
         if isinstance(r, Crash) or r['rc'] is None:
-            ctx.cap('memcheck pass skipped: %s' % (getattr(r, 'stderr_tail', None) or r.get('tail')))
-            break
+            ctx.cap('memcheck shard skipped: %s' % (getattr(r, 'stderr_tail', None) or r.get('tail')))
+            continue
         nmem += r['fired']
         if r['rc'] != 0:
             upto = sh[:r['last'] + 1] if r['last'] >= 0 else sh
